@@ -228,12 +228,21 @@ def gen_case_wellformed(rng, all_atom=None):
     descs = set()
 
     def atom(j):
-        return rng.choice(['C', 'C', 'O', 'N', 'c1ccccc1' if j else 'C']) if aa else '[#X%d]' % j
+        # (side rings end in a ring carbon: a descriptor written behind them sits on that carbon)
+        return rng.choice(['C', 'C', 'O', 'N', 'c1ccccc1' if j else 'C', 'C', 'c1[nH]ccc1' if j else 'C',
+                           'c1nc[nH]c1' if j else 'O']) if aa else '[#X%d]' % j
     for i in range(nf):
         n = rng.randint(1, 3)
         body = [atom(j) for j in range(n)]
         if aa:
             body = ['C' if b.startswith('c1') and j == 0 else b for j, b in enumerate(body)]
+            # at most one ring per fragment (ring digit 1 is reused by every ring text)
+            seen_ring = False
+            for j, b in enumerate(body):
+                if b.startswith('c1'):
+                    if seen_ring:
+                        body[j] = 'C'
+                    seen_ring = True
         order = rng.choice([1, 1, 1, 2]) if not aa else 1
         sym = '=' if order == 2 else ''
         lab = {'arrow': '', 'dollar': '', 'mixed': '', 'labelled': rng.choice(['a', 'b', '1', 'x2'])}[style]
